@@ -440,7 +440,29 @@ def filter_citations(citations: List[CitationBase]) -> List[CitationBase]:
 
     # full spans of parallel citations share their start, so ordering by full
     # span does not always order by position; return in document order
-    return sorted(filtered_citations, key=lambda citation: citation.span())
+    ordered = sorted(filtered_citations, key=lambda citation: citation.span())
+
+    # for the same reason a reference citation that overlaps the citation
+    # itself ("Bar at 2 S. Ct. 3") is not always its neighbour in the loop
+    # above; again prefer anything to a reference citation
+    result: List[CitationBase] = []
+    for citation in ordered:
+        is_reference = isinstance(citation, ReferenceCitation)
+        while (
+            result
+            and not is_reference
+            and isinstance(result[-1], ReferenceCitation)
+            and overlapping_citations(citation.span(), result[-1].span())
+        ):
+            result.pop(-1)
+        if (
+            result
+            and is_reference
+            and overlapping_citations(citation.span(), result[-1].span())
+        ):
+            continue
+        result.append(citation)
+    return result
 
 
 joke_cite: List[CitationBase] = [
